@@ -813,7 +813,8 @@ class EventSource(object):
             elif field == u'data':
                 parts.append(value)
             elif field == u'id':
-                self.leid = eid = value
+                if u'\x00' not in value:  # id containing NULL is ignored
+                    self.leid = eid = value
             elif field == u'retry':  # only ASCII digits else ignore
                 if value.isascii() and value.isdigit():
                     self.retry = int(value)
